@@ -151,12 +151,41 @@ def _run_point(case, ctx):
     guessable = spec["branch"] == sorted(spec["branch"]) and (1 not in spec["branch"] or spec["pressure"].index(max(spec["pressure"])) == spec["branch"].index(1) - 1)
     if guessable and spec["pressure"].index(max(spec["pressure"])) != 0:
         _same(ctx, "branch-guess-vs-explicit", ref, gen.build_point(spec, "lists", branch="guess"), spec)
+        for route in ("df_dup", "df_perm", "df_str"):
+            try:
+                _same(ctx, "branch-guess-vs-explicit:" + route, ref, gen.build_point(spec, route, branch="guess"), spec)
+            except Exception as exc:
+                ctx.violation("construct/raises/guess:%s" % route, "construction with guessed branches raised for a table with unusual row labels", exc=exc)
+    # every route's object exports (row labels are not content)
+    for route in ("df_dup", "df_str"):
+        try:
+            from pygaps.parsing.json import isotherm_from_json
+            _same(ctx, "json-parse:" + route, ref, isotherm_from_json(gen.build_point(spec, route).to_json()), spec)
+        except Exception as exc:
+            ctx.violation("identity/json-parse-raises/%s" % route, "JSON export/parse raised for a table with unusual row labels", exc=exc)
     # parse of the JSON export
     try:
         from pygaps.parsing.json import isotherm_from_json
         _same(ctx, "json-parse", ref, isotherm_from_json(ref.to_json()), spec)
     except Exception as exc:
         ctx.violation("identity/json-parse-raises", "JSON export/parse raised", exc=exc, spec=spec)
+    # the same keyword dictionary (holding a material dictionary) used twice
+    if isinstance(spec["material"], dict):
+        kw2 = gen._kw(spec)
+        try:
+            first = pygaps.PointIsotherm(pressure=list(spec["pressure"]), loading=list(spec["loading"]), branch=[bool(x) for x in spec["branch"]], **kw2)
+            second = pygaps.PointIsotherm(pressure=list(spec["pressure"]), loading=list(spec["loading"]), branch=[bool(x) for x in spec["branch"]], **kw2)
+            _same(ctx, "same-keyword-dictionary-twice", first, second, spec)
+        except Exception as exc:
+            ctx.violation("identity/same-keyword-dictionary-twice-raises", "building two isotherms from one keyword dictionary raised", exc=exc)
+    # zero, negative zero and values that round to zero at 8 decimals are one value
+    for z in (-0.0, -1e-10, 1e-10):
+        sz_a, sz_b = copy.deepcopy(spec), copy.deepcopy(spec)
+        sz_a["loading"][0], sz_b["loading"][0] = 0.0, z
+        try:
+            _same(ctx, "zero-representations", gen.build_point(sz_a, "lists"), gen.build_point(sz_b, "lists"), spec)
+        except Exception as exc:
+            ctx.error("c05: zero representations", exc)
     # parse of the CSV / AIF export of an isotherm whose data carry information down to the 8th decimal (what the identifier resolves)
     s8 = gen.point_spec(r, n=r.randint(3, 12), units=None, two_branches=False, extras=False, meta={}, decimals=8)
     s8["pressure"] = [round(x + 3e-7, 8) for x in s8["pressure"]]
@@ -335,6 +364,25 @@ def _run_model(case, ctx):
         ctx.error("c05: model construction failed", exc)
         return
     _same(ctx, "model:rebuilt", base, build(spec), spec)
+    # models fitted from data: the same data as integers / floats, and through guess() with a single candidate
+    if case["seed"] % 2 == 0:
+        kwf = dict(gen.DEFAULT_UNITS, material="verif-mf", adsorbate="nitrogen", temperature=77.0)
+        pi = [1, 2, 3, 4, 6, 8]
+        li = [2, 4, 6, 8, 12, 16]
+        try:
+            fa = pygaps.ModelIsotherm(pressure=[float(x) for x in pi], loading=[float(x) for x in li], model="Henry", **kwf)
+            fb = pygaps.ModelIsotherm(pressure=pi, loading=li, model="Henry", **kwf)
+            _same(ctx, "model:fitted-int-vs-float-data", fa, fb, {"pressure": pi, "loading": li})
+        except Exception as exc:
+            ctx.violation("identity/fitted-model-id-raises", "the identifier of a model fitted from integer-typed data cannot be computed", exc=exc)
+        try:
+            pf = [0.1 * k for k in range(1, 13)]
+            lf = [3 * 1.2 * x / (1 + 1.2 * x) for x in pf]
+            direct = pygaps.ModelIsotherm(pressure=pf, loading=lf, model="Langmuir", **kwf)
+            guessed = pygaps.ModelIsotherm.guess(pressure=pf, loading=lf, models=["Langmuir"], **kwf)
+            _same(ctx, "model:guess-vs-direct-fit", direct, guessed, {"model": "Langmuir"})
+        except Exception as exc:
+            ctx.violation("identity/guess-raises", "guess() with one candidate raised", exc=exc)
     # via dictionary route (what parsers do)
     try:
         from pygaps.modelling import model_from_dict
